@@ -3,6 +3,7 @@ from ..cfg import cfg_of
 from ..defuse import du_of, walk, peel, callee_name, contains, fmt
 from ..conds import lits_of
 from ..callgraph import cg_of
+from ..roles import roles_of
 from ..common import (arg_term, derives_from_block, call_named, contains_call, assigns_of_return,
                       is_adapter_impl, in_adapter_module, ADAPTER_TRAIT, field_path)
 
@@ -116,6 +117,7 @@ def _uses(body, src_block):
 
 
 def run(facts, res):
+    R = roles_of(facts)
     cg = cg_of(facts)
     res.rule("H1", "raw bytes reach a parser / re-indexer / Ok return / raw write only through the match edge of a digest comparison; mismatch leads to Err")
     res.rule("H2", "a parsed block is returned only if the identifier recomputed from its parents equals the identifier it is stored under")
@@ -168,7 +170,7 @@ def run(facts, res):
                 unverified_return = True
                 continue
             # frozen exception: pure copy of a foreign (non-block, non-pack) item in meld
-            if kind == "call" and what.callee.name == "write_raw_item" and _foreign_copy(body, ub, facts):
+            if kind == "call" and what.callee.name == R.name("raw_write") and _foreign_copy(body, ub, facts):
                 copies += 1
                 res.exception("C10|H3|%s|foreign-item-copy" % body.path,
                               "meld copies items that carry neither the block nor the pack extension byte for byte; "
@@ -278,7 +280,7 @@ def run(facts, res):
                 continue
             for i in range(len(s.term.args)):
                 at = arg_term(b, s.term, i)
-                if contains_call(at, "list_raw_items", "list_objects"):
+                if contains_call(at, R.name("lister"), "list_objects"):
                     for tg in s.targets:
                         if tg.in_repo() and tg.path.startswith("melda::") and tg.kind != "closure":
                             parsers.setdefault(tg.path, []).append(s)
